@@ -711,9 +711,34 @@ def round_inputs(F, rng, tier):
     return out
 
 
+def apalache_round_lemma(wd, shifts):
+    """Apalache proves the nearest-even / largest-below lemma of the rounding arithmetic for ALL 2^63 significands with the
+    top bit set, one literal shift at a time (spec/apalache/RoundLemma.tla); returns (obligations, discharged)"""
+    import concurrent.futures
+    src = open(os.path.join(core.SPEC, "apalache", "RoundLemma.tla")).read()
+
+    def one(sh):
+        d = os.path.join(wd, "apalache-%d" % sh)
+        os.makedirs(d, exist_ok=True)
+        with open(os.path.join(d, "RoundLemma.tla"), "w") as f:
+            f.write(src.replace("SHIFT", str(sh)))
+        p, _ = core.run(["timeout", "600", "apalache-mc", "check", "--inv=Nearest", "--length=0", "--out-dir=" + os.path.join(d, "out"),
+                         "RoundLemma.tla"], cwd=d, timeout=700, check=False, env={"JVM_ARGS": "-Xmx2g"})
+        ok = p.returncode == 0 and "The outcome is: NoError" in (p.stdout or "")
+        shutil.rmtree(os.path.join(d, "out"), ignore_errors=True)
+        return sh, ok, (p.stdout or "")[-400:]
+    with concurrent.futures.ThreadPoolExecutor(max_workers=6) as ex:
+        res = list(ex.map(one, shifts))
+    failed = [(sh, tail) for sh, ok, tail in res if not ok]
+    if failed:
+        raise core.ToolError("Apalache did not discharge the rounding lemma for shifts %s: %s" % ([f[0] for f in failed], failed[0][1]))
+    return len(res), len(res)
+
+
 def c18(tier):
     t0 = time.time()
     wd = core.workdir("C18")
+    lemma = apalache_round_lemma(wd, [11, 40] if tier == "quick" else list(range(1, 65)))
     inputs = round_inputs(gen.F64, gen.rng_for("C18f64"), tier) + round_inputs(gen.F32, gen.rng_for("C18f32"), tier)
     recs = run_parts(wd, "round", inputs, "std", "round")
     masks = run_parts(wd, "masks", None, "std", "masks")
@@ -733,6 +758,8 @@ def c18(tier):
                 "the constructive RN on a small format",
         "samples": [recs[0], recs[len(recs) // 2], recs[-1], masks[7]],
         "spec_trails": dict(trails), "model_vs_impl_drift": drift, "mc_round_states": mc.distinct,
+        "apalache_round_lemma": {"obligations": lemma[0], "discharged": lemma[1],
+                                 "what": "for each literal shift, all 2^63 significands: q+up is a nearest multiple of 2^shift, even on ties; q is the largest below"},
         "tlc_cmd": res.cmd, "exhaustive": False,
     }
     core.write_evidence("C18", tier, "model_checking", cov, time.time() - t0, len(violations),
@@ -888,6 +915,7 @@ CHECKS["C12"] = c12
 
 # ----------------------------------------------------------------------- C19
 import itertools
+import shutil
 
 FE_ALPHABET = [43, 45, 48, 49, 57, 46, 101, 69, 110, 97, 105, 102, 116, 121, 120, 0]
 
